@@ -33,7 +33,7 @@ var (
 			"cookie, a client never receives a backend cookie; non-trivial = at least two goroutines share a session and at least two differ")
 )
 
-func TestMain(m *testing.M) { vh.Main(m, recH, recS) }
+func TestMain(m *testing.M) { vh.Main(m, recH, recS, recPK) }
 
 const cookieName = "agent-session"
 
